@@ -178,6 +178,12 @@ Definition set_rates (p : peer) (d u : option N) : peer :=
   mkpeer (p_id p) (p_pieces p) (p_piece_index p) (p_am_interested p) (p_am_choked p) (p_interested p) (p_choked p)
          (p_optimistic p) d u.
 
+(* Repair flag of src/peer.rs::handle_piece, pinned by the correspondence. *)
+Definition Peer_no_reserve_when_choked : bool := true.
+
+(* Repair flag of Session::unchoked_num (regular slots are counted), pinned by the correspondence. *)
+Definition Session_unchoked_counts_regular : bool := true.
+
 Definition step_out := (mgr * reply * list broadcast * list spawn)%type.
 Definition out (m : mgr) (r : reply) : result step_out := Ok (m, r, [], []).
 
@@ -185,6 +191,10 @@ Definition out (m : mgr) (r : reply) : result step_out := Ok (m, r, [], []).
 Definition peer_handle_piece (m : mgr) (a : addr) (p : peer) (pick : option N) : result step_out :=
   match pick with
   | Some c =>
+      if Peer_no_reserve_when_choked && p_choked p then
+        (* repaired code: a peer that chokes us gets no reservation; the next Unchoke assigns *)
+        out (with_peer m a (set_assign p None (p_am_interested p))) RPiece_Ignore
+      else
       do st <- upd_status (m_status m) c incr;
       let p' := set_assign p (Some c) (p_am_interested p) in
       let m' := with_peer (with_status m st) a p' in
@@ -305,7 +315,9 @@ Definition mstep (m : mgr) (c : cmd) (pick : option N) : result step_out :=
               let m1 := with_peer m a (set_pieces p v) in
               (* choose_piece_index and unchoked_num see the updated pieces; the pick is checked
                  against m1 by the caller *)
-              let unchoked := len (filter (fun kp => negb (p_am_choked (snd kp)) && p_optimistic (snd kp)) (m_peers m1)) in
+              let unchoked := len (filter (fun kp => negb (p_am_choked (snd kp)) &&
+                                            (if Session_unchoked_counts_regular then negb (p_optimistic (snd kp)) else p_optimistic (snd kp)))
+                                  (m_peers m1)) in
               let am_int := match pick with Some _ => true | None => false end in
               let with_unchoke := (unchoked <? MAX_UNCHOKED) && p_am_choked p in
               let p2 := set_am (set_pieces p v) am_int (if with_unchoke then false else p_am_choked p) in
@@ -403,7 +415,7 @@ Definition pick_context (m : mgr) (c : cmd) : option (mgr * peer) :=
 Fixpoint insert_rate (x : addr * N) (l : list (addr * N)) : list (addr * N) :=
   match l with
   | [] => [x]
-  | y :: r => if snd y <? snd x then x :: l else y :: insert_rate x r     (* stable, descending *)
+  | y :: r => if snd y <=? snd x then x :: l else y :: insert_rate x r    (* stable, descending: inserted from the right *)
   end.
 Definition sort_rates (l : list (addr * N)) : list (addr * N) := fold_right insert_rate [] l.
 
